@@ -205,6 +205,16 @@ type rwStreamInc struct {
 	returned bool
 	done     chan struct{}
 	ended    bool // the harness ended/broke it
+	openGate chan struct{}
+	snap     *rwRegSnapshot
+}
+
+// rwRegSnapshot: the registry entries of a shard right after an incarnation registered (= that incarnation's own).
+type rwRegSnapshot struct {
+	sendChan chan RoutedMessage
+	created  time.Time
+	ackChan  chan RoutedAck
+	receiver ActiveReceiver
 }
 
 type rwSource struct {
@@ -299,9 +309,15 @@ func (w *rwWorld) fail(format string, a ...any) {
 }
 
 // open starts a stream incarnation through the real streamRouting.
-func (w *rwWorld) open(side string, idx int) *rwStreamInc {
+func (w *rwWorld) open(side string, idx int) *rwStreamInc { return w.openHeld(side, idx, false) }
+
+// openHeld: with holdOpen the proxy's reverse stream-open call does not complete until inc.openGate is closed.
+func (w *rwWorld) openHeld(side string, idx int, holdOpen bool) *rwStreamInc {
 	time.Sleep(time.Nanosecond) // distinct registration timestamps, as wall clocks give
 	inc := &rwStreamInc{done: make(chan struct{})}
+	if holdOpen {
+		inc.openGate = make(chan struct{})
+	}
 	var serverShard, clientShard history.ClusterShardID
 	var localCount int32
 	if side == "S" {
@@ -315,6 +331,9 @@ func (w *rwWorld) open(side string, idx int) *rwStreamInc {
 	}
 	inc.ss = newVFServerStream(context.Background(), fmt.Sprintf("%s%d-server", side, idx), vfStreamMD(int(clientShard.ClusterID), int(clientShard.ShardID), int(serverShard.ClusterID), int(serverShard.ShardID)))
 	inc.client = &vfAdminClient{OnOpen: func(_ context.Context, cs *vfClientStream) error {
+		if inc.openGate != nil {
+			<-inc.openGate
+		}
 		inc.cs = cs
 		cs.onCloseSend = func() { cs.PushEOF() } // a well-behaved peer ends the stream once the proxy half-closes
 		return nil
@@ -327,6 +346,10 @@ func (w *rwWorld) open(side string, idx int) *rwStreamInc {
 			}
 		}()
 		_ = streamRouting(vfNoop(), inc.ss, serverShard, clientShard, w.sm, inc.client, RoutingParameters{RoutingLocalShardCount: localCount, DirectionLabel: "vf"}, w.lifetime)
+	}()
+	go func() { // gRPC: once the handler returned, the server stream is dead
+		<-inc.done
+		inc.ss.Kill()
 	}()
 	vfQuiesce()
 	if side == "S" {
@@ -662,22 +685,41 @@ func (w *rwWorld) classifyPair(s *rwSource, a rwSourceAck, id int64) string {
 
 // endAll ends every stream and lets the proxy wind down; returns what is left registered.
 func (w *rwWorld) endAll() (leftovers []string) {
+	// every stream ends, also the initiator side of incarnations that were superseded earlier
 	for _, s := range w.sources {
 		for _, inc := range s.incs {
+			inc.ss.Kill()
+			if inc.openGate != nil {
+				select {
+				case <-inc.openGate:
+				default:
+					close(inc.openGate)
+				}
+			}
 			if !inc.ended {
 				inc.ended = true
-				inc.ss.Kill()
 				if inc.cs != nil {
 					inc.cs.PushEOF()
 				}
+			}
+			if inc.cs != nil {
+				inc.cs.ReleaseCancel()
 			}
 		}
 	}
 	for _, t := range w.targets {
 		for _, inc := range t.incs {
-			if !inc.ended {
-				inc.ended = true
-				inc.ss.Kill()
+			inc.ss.Kill()
+			if inc.openGate != nil {
+				select {
+				case <-inc.openGate:
+				default:
+					close(inc.openGate)
+				}
+			}
+			inc.ended = true
+			if inc.cs != nil {
+				inc.cs.ReleaseCancel()
 			}
 		}
 	}
